@@ -444,6 +444,13 @@ type chainVerdict struct {
 
 // window relation of an instant (ns after epoch) to a bound in seconds.
 func relTo(tNS int64, boundS int64) int {
+	// (bounds beyond +/-292 years from the simulation epoch do not fit in int64 nanoseconds)
+	if boundS > 9_000_000_000 {
+		return -1
+	}
+	if boundS < -9_000_000_000 {
+		return 1
+	}
 	b := boundS * 1_000_000_000
 	switch {
 	case tNS < b:
